@@ -285,14 +285,75 @@ func c17Exit(c *core.Ctx) {
 	}
 }
 
+// c17Gap: the touch/overlap test of BlockRange.Gap must not wrap at the ends of the uint64 range. Structural part:
+// the branch conditions of Gap compare endpoints directly or through the saturating getBlockMinusOne helper — no
+// +1 / -1 arithmetic on an endpoint inside a condition — and the helper subtracts only on the x > 0 edge.
+func c17Gap(c *core.Ctx) {
+	const rule = "C17-gap"
+	sx := core.NewSymx()
+	g := c.MustFn(rule, "aggsender/types", "BlockRange", "Gap")
+	if g != nil {
+		var bad []string
+		n := 0
+		for _, b := range g.Blocks {
+			iff, ok := b.Instrs[len(b.Instrs)-1].(*ssa.If)
+			if !ok {
+				continue
+			}
+			n++
+			t := sx.Of(iff.Cond)
+			t.Walk(func(x *core.Term) {
+				if x.Op == "binop" && (x.Name == "+" || x.Name == "-") {
+					bad = append(bad, t.String())
+				}
+			})
+		}
+		c.Decide(len(bad) == 0 && n >= 2, rule, "types.BlockRange.Gap#conditions-do-not-wrap", g.Pos(), fmt.Sprintf("no endpoint arithmetic inside the touch/overlap and ordering tests (offending: %v)", bad))
+		// an empty range is returned for touching/overlapping ranges: the first return of the zero range is reached only
+		// through both >= edges on the saturating predecessor
+		touch1 := core.TermEdges(g, sx, func(s string, _ *core.Term) bool {
+			return s == "(b.ToBlock >= aggsender/types.getBlockMinusOne(other.FromBlock))"
+		}, true)
+		touch2 := core.TermEdges(g, sx, func(s string, _ *core.Term) bool {
+			return s == "(other.ToBlock >= aggsender/types.getBlockMinusOne(b.FromBlock))"
+		}, true)
+		ok := len(touch1) > 0 && len(touch2) > 0
+		zero := 0
+		for _, rc := range core.ReturnCases(g) {
+			t := sx.Of(rc.Values[0])
+			if t.Op == "const" || (t.Op == "lit" && len(t.Fields) == 0) || strings.HasPrefix(t.String(), "const(zero:") || t.Op == "alloc" {
+				zero++
+				ok = ok && rc.ReachableOnlyVia(g, touch1) && rc.ReachableOnlyVia(g, touch2)
+			}
+		}
+		c.Decide(ok && zero == 1, rule, "types.BlockRange.Gap#empty-iff-touching", g.Pos(), "the empty gap is returned exactly on the edge where each range's end reaches the other's start minus one (saturating)")
+	}
+	m := c.MustFn(rule, "aggsender/types", "", "getBlockMinusOne")
+	if m != nil {
+		pos := core.TermEdges(m, sx, func(s string, _ *core.Term) bool { return s == "(fromBlock > const(0))" || s == "(fromBlock != const(0))" }, true)
+		ok := len(pos) > 0
+		for _, rc := range core.ReturnCases(m) {
+			switch sx.Of(rc.Values[0]).String() {
+			case "(fromBlock - const(1))":
+				ok = ok && rc.ReachableOnlyVia(m, pos)
+			case "const(0)":
+			default:
+				ok = false
+			}
+		}
+		c.Decide(ok, rule, "types.getBlockMinusOne#saturating", m.Pos(), "x-1 only when x > 0, otherwise 0")
+	}
+}
+
 func init() {
 	register(&Property{
 		ID:    "C17",
 		Level: "other",
-		Explanation: "Decides the comparison-only part of 'cutting a certificate's block range never drops, duplicates or reorders events': C17-filter — in Range both filter loops range over the source slice in order and append the element itself iff fromBlock <= BlockNum <= toBlock (each append is dominated by both bound edges, and from the point where both hold the loop cannot advance without appending; the comparisons are recognised in all four written forms, so the result is exact for this comparison-only code), the new parameters take the requested bounds and copy every other field, a sub-range is built only for c.FromBlock <= fromBlock <= toBlock <= c.ToBlock and the receiver is returned only for its own range; C17-first — every caller of Range passes the certificate's own FromBlock; C17-exit — limitCertSize drops exactly the last block per step, iterates on each cut's result and returns only when no limit is set, the estimate fits, or one block is left; the last-block clamp cuts to exactly maxL2BlockNumber only when ToBlock exceeds it. Declined: maximality of the cut and monotonicity of EstimatedSize (float arithmetic), and BlockRange.Gap (saturating ±1 arithmetic at 0 and 2^64-1 needs a relational numeric domain or a solver, outside this family as practised here).",
+		Explanation: "Decides the comparison-only part of 'cutting a certificate's block range never drops, duplicates or reorders events': C17-filter — in Range both filter loops range over the source slice in order and append the element itself iff fromBlock <= BlockNum <= toBlock (each append is dominated by both bound edges, and from the point where both hold the loop cannot advance without appending; the comparisons are recognised in all four written forms, so the result is exact for this comparison-only code), the new parameters take the requested bounds and copy every other field, a sub-range is built only for c.FromBlock <= fromBlock <= toBlock <= c.ToBlock and the receiver is returned only for its own range; C17-first — every caller of Range passes the certificate's own FromBlock; C17-exit — limitCertSize drops exactly the last block per step, iterates on each cut's result and returns only when no limit is set, the estimate fits, or one block is left; the last-block clamp cuts to exactly maxL2BlockNumber only when ToBlock exceeds it. C17-gap — the shape of BlockRange.Gap's touch test: no +1/-1 arithmetic on an endpoint inside a branch condition (endpoints are compared directly or through getBlockMinusOne), getBlockMinusOne subtracts only on its x > 0 edge and returns 0 otherwise, and the empty gap is returned exactly on the two >= edges against the saturating predecessor. Declined: maximality of the cut and monotonicity of EstimatedSize (float arithmetic), and the numeric values of the non-empty gap (needs a relational numeric domain or a solver, outside this family as practised here).",
 		Rules: []Rule{
 			{ID: "C17-filter", Floor: 13, Run: c17Filter, Text: "[ORD]-style exact comparison analysis of the Range filters and precondition; literal field map"},
 			{ID: "C17-first", Floor: 3, Run: c17First, Text: "[PROV] every cut keeps the first block"},
+			{ID: "C17-gap", Floor: 3, Run: c17Gap, Text: "structure of the gap test: no wrapping arithmetic in conditions; saturating predecessor; empty iff touching (gap values not decided)"},
 			{ID: "C17-exit", Floor: 7, Run: c17Exit, Text: "[DOM] shrink step, loop variable, exit conditions; last-block clamp"},
 		},
 	})
